@@ -3486,18 +3486,29 @@ static Token *function(Token *tok, Type *basety, VarAttr *attr) {
       error_tok(tok, "redefinition of %s", name_str);
     if (!fn->is_static && attr->is_static)
       error_tok(tok, "static declaration follows a non-static declaration");
+
+    // An inline function with external linkage has an external definition
+    // unless all of its file-scope declarations say "inline" without
+    // "extern" [https://www.sigbus.info/n1570#6.7.4p7].
+    if (fn->is_inline_def && (!attr->is_inline || attr->is_extern)) {
+      fn->is_inline_def = false;
+      fn->is_static = false;
+    }
+
+    // A function with internal linkage that is declared inline before or
+    // at its definition is emitted only if it is referenced.
+    if (fn->is_static && !fn->is_inline_def && attr->is_inline && !fn->is_definition)
+      fn->is_inline = true;
+
     fn->is_definition = fn->is_definition || equal(tok, "{");
   } else {
     fn = new_gvar(name_str, ty);
     fn->is_function = true;
     fn->is_definition = equal(tok, "{");
-    fn->is_static = attr->is_static || (attr->is_inline && !attr->is_extern);
+    fn->is_inline_def = attr->is_inline && !attr->is_static && !attr->is_extern;
+    fn->is_static = attr->is_static || fn->is_inline_def;
     fn->is_inline = attr->is_inline;
   }
-
-  // A reference from file scope may already have made it a root.
-  if (!(fn->is_static && fn->is_inline))
-    fn->is_root = true;
 
   if (consume(&tok, tok, ";"))
     return tok;
@@ -3680,8 +3691,10 @@ Obj *parse(Token *tok) {
     tok = global_variable(tok, basety, &attr);
   }
 
+  // Roots are the functions referenced from file scope and, now that all
+  // declarations have been seen, the ones that are not "static inline".
   for (Obj *var = globals; var; var = var->next)
-    if (var->is_root)
+    if (var->is_root || (var->is_function && !(var->is_static && var->is_inline)))
       mark_live(var);
 
   // Remove redundant tentative definitions.
